@@ -223,8 +223,8 @@ func newSource(r *rand.Rand, id, addr string) (*source, error) {
 		},
 	})
 	m.SemLogger().SetLevel(am.LogChanges)
-	// half of the sources also stream their Can* checks
-	m.SemLogger().EnableCan(r.IntN(2) == 0)
+	// half of the sources (the first one always) also stream their Can* checks
+	m.SemLogger().EnableCan(r.IntN(2) == 0 || strings.HasPrefix(id, "c16m0-"))
 	if err := dbg.TransitionsToDbg(m, addr); err != nil {
 		return nil, err
 	}
@@ -308,6 +308,13 @@ func (e eng) Run(c core.CaseDesc, tier string) *core.CaseResult {
 			for _, s := range srcs {
 				s.drive(r, per/4+1)
 			}
+		}
+	}
+	// every stream ends with a few checks: for the sources that stream them
+	// the default FilterChecks hides the tail of the list
+	for _, s := range srcs {
+		for k := 0; k < 3; k++ {
+			s.m.CanAdd1(s.spec.Names[k%len(s.spec.Names)], nil)
 		}
 	}
 	// look transition ids up BEFORE their records arrive (the server debounces
